@@ -23,7 +23,7 @@ RULE = ('a case = a node of 1..3 generated module classes (base Module/Readable/
         'scaled, bool, enum, string, fixed-length array of int, struct of leaves, with units containing $, readonly, constant '
         'given in the class or in the configuration, default or none; commands with optional argument/result type; export '
         'True / False / custom string / empty string in the class, optionally overridden in the configuration; predefined and '
-        'custom names, occasionally colliding wire names) built into a real SecNode + Dispatcher, x a history of 4..14 requests '
+        'custom names, occasionally colliding wire names = a configuration both sides must refuse) built into a real SecNode + Dispatcher, x a history of 4..14 requests '
         'through Dispatcher.handle_request (describe, read, change, do, activate of node / module / accessible) and driver-side '
         'assignments, aimed at described names, hidden names, attribute names, other-kind names and unknown names, with payloads '
         'from the boundary catalogue of the datatype (limits, limits +-1, wrong kinds, wrong lengths, missing/extra members).  '
@@ -291,7 +291,16 @@ def run_case(case):
         except Exception as e:
             return {'build_error': f'{_exc_name(e)}: {e}'}
         if srv.secnode.errors or len(srv.secnode.modules) != len(case['mods']):
-            return {'build_error': '; '.join(srv.secnode.errors)[:400]}
+            # the implementation refused the configuration: the model is told what the classes say
+            from frappy.modulebase import Feature
+            mods = []
+            for mod, cls in zip(case['mods'], classes):
+                own = {a['attr']: a for a in mod['accs']}
+                accs = [{'spec': own.get(attr) or _inherited_spec(attr, cobj), 'rt': _acc_model_data(attr, cobj, cobj)}
+                        for attr, cobj in cls.accessibles.items() if not cobj.optional]
+                mods.append({'impl': f'{cls.__module__}.{cls.__name__}',
+                             'mro': [[b.__name__, Feature in b.__bases__] for b in cls.__mro__], 'accs': accs})
+            return {'rejected': '; '.join(srv.secnode.errors)[:400], 'mods': mods, 'steps': [], 'env': G.pyenv_for([])}
 
         # what the model is told about the instantiated modules (order of accessibles, run-time datatypes, MRO)
         from frappy.modulebase import Feature
@@ -532,8 +541,11 @@ def encode(case, obs):
             replies.append(g_reply(s['reply']))
     steps = '[' + ';\n   '.join('{| o_reply := %s; o_upds := %s |}' % (r, gal.lst(s['upds'], g_upd))
                                 for r, s in zip(replies, obs['steps'])) + ']'
+    if 'rejected' in obs:
+        ops = '[]'
     lets = ''.join(f'let {name} : description := {term} in\n  ' for term, name in shared.items())
-    return '(%s{| c_env := %s; c_cfg := %s; c_ops := %s; c_obs := %s |})' % (lets, G.gal_pyenv(obs['env']), cfg, ops, steps)
+    return '(%s{| c_env := %s; c_cfg := %s; c_ops := %s; c_obs := %s; c_rejected := %s |})' % (
+        lets, G.gal_pyenv(obs['env']), cfg, ops, steps, gal.boolean('rejected' in obs))
 
 
 def model_result_term(case, obs):
@@ -569,6 +581,12 @@ def oracle(case, obs):
         fails.append(dict({'class': cls, 'what': what}, **kw))
 
     if 'build_error' in obs:
+        return fails
+    if 'rejected' in obs:
+        # two accessibles of a module under one wire name cannot both be listed: refusing the configuration is the
+        # only way to keep the report true; any other refusal of a generated configuration is not expected
+        if not any(m['export'] and _dup_wires(m) for m in case['mods']):
+            fail('configuration-rejected', 'the node refused a configuration with distinct wire names: ' + obs['rejected'])
         return fails
     steps = obs['steps']
     descs = [(i, s) for i, (op, s) in enumerate(zip(case['ops'], steps)) if op[0] == 'describe' and s['reply'][0] == 'desc']
@@ -683,74 +701,13 @@ def oracle(case, obs):
     return fails
 
 
-def _acc_by_wire(case, module, wire):
-    for m in case['mods']:
-        if m['name'] == module:
-            return [a for (attr, k, w, a) in spec_accessibles(m) if a is not None and
-                    (w == wire or spec_wire(a['attr'], a['export']) == wire or a['attr'] == wire)]
-    return []
-
-
-def _cls_constant_read(case, obs, failure):
-    """read of a described constant parameter: Dispatcher._getParameterValue returns the bare exported constant and
-    handle_read applies list() to it"""
-    return failure['class'] == 'constant-read'
-
-
 def _mod(case, name):
     return next((m for m in case['mods'] if m['name'] == name), None)
-
-
-def _names_touched_by_cfg_export(mod):
-    names = set()
-    for a in mod['accs']:
-        if 'cfg_export' in a:
-            names.add(spec_wire(a['attr'], a['export']))
-            names.add(spec_wire(a['attr'], a['cfg_export']))
-    names.discard(None)
-    return names
-
-
-def _cls_cfg_export(case, obs, failure):
-    """the export property of an accessible given in the configuration: applied after the registration in accessiblename2attr
-    and after the module-level hiding"""
-    if failure['class'] == 'strict-json':
-        # a command whose export is set to True in the configuration is listed under the python key True
-        return any(m['export'] and a['kind'] == 'c' and a.get('cfg_export') is True for m in case['mods'] for a in m['accs'])
-    if failure['class'] not in ('undescribed-access', 'described-unreachable', 'undescribed-update', 'lists-exactly',
-                                'emitted-importable', 'flags-predict', 'datainfo-same-verdict', 'constant-read'):
-        return False
-    m = _mod(case, failure.get('module'))
-    if m is None:
-        return False
-    if failure['class'] == 'lists-exactly':
-        touched = _names_touched_by_cfg_export(m) | {'True'}
-        return bool(failure.get('missing') or failure.get('extra')) and \
-            set(failure.get('missing', [])) | set(failure.get('extra', [])) <= touched
-    wire = failure.get('wire')
-    if wire is None and failure['class'] == 'undescribed-update':
-        # update with specifier module:False
-        return any('cfg_export' in a and a['cfg_export'] in (False, '') for a in m['accs'])
-    return wire in _names_touched_by_cfg_export(m)
 
 
 def _dup_wires(mod):
     ws = [w for _, _, w, _ in spec_accessibles(mod) if w]
     return {w for w in ws if ws.count(w) > 1}
-
-
-def _cls_collision(case, obs, failure):
-    """two exported accessibles of one module share a wire name (not rejected when the module is built)"""
-    m = _mod(case, failure.get('module'))
-    if m is None:
-        return False
-    dups = _dup_wires(m)
-    if not dups:
-        return False
-    if failure['class'] == 'lists-exactly':
-        return not failure.get('missing') and not failure.get('extra')
-    return failure.get('wire') in dups and failure['class'] in ('flags-predict', 'datainfo-same-verdict', 'emitted-importable',
-                                                                   'described-unreachable', 'constant-read')
 
 
 def _cls_nan_constant(case, obs, failure):
@@ -767,9 +724,6 @@ def _cls_nan_constant(case, obs, failure):
 
 
 FINDING_CLASSIFIERS = {
-    'constant_read_malformed': _cls_constant_read,
-    'cfg_export_override': _cls_cfg_export,
-    'wire_name_collision': _cls_collision,
     'nan_constant_not_strict_json': _cls_nan_constant,
 }
 
@@ -777,6 +731,8 @@ FINDING_CLASSIFIERS = {
 def nontrivial_key(case, obs):
     if 'build_error' in obs:
         return None
+    if 'rejected' in obs:
+        return json.dumps([case['mods'], 'rejected'], sort_keys=True)
     if not any(s['reply'][0] == 'data' or s['upds'] for s in obs['steps']):
         return None
     return json.dumps([case['mods'], case['ops']], sort_keys=True)
@@ -785,6 +741,8 @@ def nontrivial_key(case, obs):
 def outcome_labels(case, obs):
     if 'build_error' in obs:
         return ['build_error']
+    if 'rejected' in obs:
+        return ['configuration rejected']
     labs = set()
     for op, s in zip(case['ops'], obs['steps']):
         labs.add(f'{op[0]}:' + (s['reply'][1] if s['reply'][0] == 'err' else s['reply'][0]))
@@ -794,8 +752,8 @@ def outcome_labels(case, obs):
 
 
 def sample_repr(case, obs):
-    if 'build_error' in obs:
-        return {'case': case, 'build_error': obs['build_error']}
+    if 'build_error' in obs or 'rejected' in obs:
+        return {'case': case, 'build_error': obs.get('build_error') or obs.get('rejected')}
     return {'mods': [{k: v for k, v in m.items()} for m in case['mods']][:2], 'ops': case['ops'][:6],
             'steps': [{'reply': s['reply'] if s['reply'][0] != 'desc' else ['desc', '...'], 'upds': s['upds']}
                       for s in obs['steps'][:6]]}
@@ -833,7 +791,7 @@ def gen_type(rng, leaf_only=False):
         return {'t': 'enum', 'members': [[a, b] for a, b in zip(names, vals)]}
     if t == 'string':
         a = rng.choice([0, 0, 1])
-        b = rng.choice([a + 2, 8] + ([1 << 64] if a == 0 else []))     # (minchars > 0 without maxchars is rebuilt differently: C03)
+        b = rng.choice([a + 2, 8, 1 << 64])
         return {'t': 'string', 'min': a, 'max': b, 'utf8': rng.random() < 0.5}
     if t == 'array':
         n = rng.randint(1, 3)
